@@ -2,10 +2,10 @@
 // ASSUME: same environment as C11_csr: one modelled thread (do_all sequential, on_each once), enumerated out-index with symbolic destinations/data, exact-size LargeArray blocks (nullptr for 0 bytes), FileGraph::fromArrays input with mmap as a heap block, no runtime context installed, StatTimer does nothing
 // ASSUME: sortInEdgesByDst / sortAllInEdgesByDst are NOT covered: the in-edge ranges depend on the symbolic destinations, and std::sort over ranges with symbolic bounds did not finish symbolic execution in 300 s
 // ASSUME: one solver query covers a group of 5 consecutive out-index arrays
-// OB: ob_csc_in_shared tier=quick unwind=14 unwindset=g__ZN6galois6graphs9FileGraph10fromArraysEPmmPvmPcmmmbi.3:26,g__ZN6galois6graphs9FileGraph10fromArraysEPmmPvmPcmmmbi.12:26 timeout=300 solver=cadical params=7 bounds="LC_CSR_CSC_Graph<int,uint32_t> (in-edges share the out-edge's data cell): 35 out-index arrays (nodes<=3, edges<=3); destinations, data symbolic" desc="readGraph + constructIncomingEdges: out-edges are the input; in-edge ranges tile [0,E) with the right in-degrees; in-edges map one-to-one onto out-edges (u->v appears as in-edge of v with source u) and getInEdgeData is the very cell of that out-edge"
-// OB: ob_csc_in_shared_e4 tier=thorough unwind=14 unwindset=g__ZN6galois6graphs9FileGraph10fromArraysEPmmPvmPcmmmbi.3:26,g__ZN6galois6graphs9FileGraph10fromArraysEPmmPvmPcmmmbi.12:26 timeout=600 solver=cadical params=5 bounds="the 21 out-index arrays with 4 edges" desc="CSR+CSC with shared edge data (4 edges)"
-// OB: ob_csc_in_value tier=thorough unwind=14 unwindset=g__ZN6galois6graphs9FileGraph10fromArraysEPmmPvmPcmmmbi.3:26,g__ZN6galois6graphs9FileGraph10fromArraysEPmmPvmPcmmmbi.12:26 timeout=300 solver=cadical params=7,2 bounds="LC_CSR_CSC_Graph<int,uint32_t,true> (in-edges own a copy of the data) and <int,void>: 35 out-index arrays (edges<=3)" desc="readGraph + constructIncomingEdges: in-edges are a permutation of the reversed edge multiset with each edge's data"
-// OB: ob_csc_in_value_e4 tier=thorough unwind=14 unwindset=g__ZN6galois6graphs9FileGraph10fromArraysEPmmPvmPcmmmbi.3:26,g__ZN6galois6graphs9FileGraph10fromArraysEPmmPvmPcmmmbi.12:26 timeout=600 solver=cadical params=5,2 bounds="the 21 out-index arrays with 4 edges" desc="CSR+CSC with copied edge data / void (4 edges)"
+// OB: ob_csc_in_shared tier=quick unwind=14 unwindfn=vf_byte_:26 timeout=300 solver=cadical params=7 bounds="LC_CSR_CSC_Graph<int,uint32_t> (in-edges share the out-edge's data cell): 35 out-index arrays (nodes<=3, edges<=3); destinations, data symbolic" desc="readGraph + constructIncomingEdges: out-edges are the input; in-edge ranges tile [0,E) with the right in-degrees; in-edges map one-to-one onto out-edges (u->v appears as in-edge of v with source u) and getInEdgeData is the very cell of that out-edge"
+// OB: ob_csc_in_shared_e4 tier=thorough unwind=14 unwindfn=vf_byte_:26 timeout=600 solver=cadical params=5 bounds="the 21 out-index arrays with 4 edges" desc="CSR+CSC with shared edge data (4 edges)"
+// OB: ob_csc_in_value tier=thorough unwind=14 unwindfn=vf_byte_:26 timeout=300 solver=cadical params=7,2 bounds="LC_CSR_CSC_Graph<int,uint32_t,true> (in-edges own a copy of the data) and <int,void>: 35 out-index arrays (edges<=3)" desc="readGraph + constructIncomingEdges: in-edges are a permutation of the reversed edge multiset with each edge's data"
+// OB: ob_csc_in_value_e4 tier=thorough unwind=14 unwindfn=vf_byte_:26 timeout=600 solver=cadical params=5,2 bounds="the 21 out-index arrays with 4 edges" desc="CSR+CSC with copied edge data / void (4 edges)"
 #include "C11_common.h"
 #include "galois/graphs/LC_CSR_CSC_Graph.h"
 #include "galois/graphs/ReadGraph.h"
